@@ -1,9 +1,10 @@
 package trzsz
 
 import (
-	"path/filepath"
-	"os"
 	"fmt"
+	"math/rand"
+	"os"
+	"path/filepath"
 	"regexp"
 	"strconv"
 	"strings"
@@ -225,22 +226,80 @@ func vC20System(rc *runCtx) {
 	cfg := vDrawConfig(tp, false)
 	cfg.quiet = false
 	cfg.trigVersion = ""
-	cfg.timeout = 20
+	cfg.timeout = 60
 	cfg.bufSize = []string{"1K", "4k", ""}[tp.Draw("c20s.buf", 3)]
 	cfg.srvTmux = []string{"", "normal", "control"}[tp.Pick("c20s.stmux", 2, 2, 2)]
 	if cfg.srvTmux == "control" {
 		cfg.tunnel = true // control-mode triggers are only taken through the tunnel
+	}
+	// relays in between, some of them inside tmux: a pane nested in another is never wider than the one around it
+	if cfg.srvTmux != "control" {
+		cfg.relays = tp.Pick("c20s.relays", 3, 2, 1)
+		for i := 0; i < cfg.relays; i++ {
+			cfg.relayTmux = append(cfg.relayTmux, []string{"", "normal"}[tp.Pick("c20s.rtmux", 1, 2)])
+		}
 	}
 	src := filepath.Join(rc.dir, "src")
 	dst := filepath.Join(rc.dir, "dst")
 	dst2 := filepath.Join(rc.dir, "dst2")
 	os.MkdirAll(dst, 0755)
 	os.MkdirAll(dst2, 0755)
+	resume := tp.Bool("c20s.resume", 300)
+	if resume {
+		cfg.overwrite = true
+	}
 	spec := vGenSources(rc, src, 2, cfg.dirMode, 60000, !cfg.overwrite)
+	if resume {
+		// one more source, long enough for many redraws on a line of limited capacity
+		big := make([]byte, 150000+tp.Draw("c20s.bigsize", 250000)) // incompressible: its length is what crosses the line
+		rand.New(rand.NewSource(int64(tp.Draw("c20s.bigseed", 1<<30)))).Read(big)
+		bp := filepath.Join(src, "resumed-big.bin")
+		vWriteFile(bp, big)
+		// first in line (or alone): the very first drawing of a bar is never held back by the redraw interval
+		if tp.Bool("c20s.bigalone", 300) {
+			spec.paths = []string{bp}
+		} else {
+			spec.paths = append([]string{bp}, spec.paths...)
+		}
+		cfg.bufSize = []string{"1K", "4k"}[tp.Draw("c20s.resumebuf", 2)]
+		// the destination holds the beginning of each file already (an interrupted earlier transfer): the bar
+		// starts from there and still only moves forward
+		for _, p := range spec.paths {
+			if st, err := os.Stat(p); err == nil && st.Mode().IsRegular() && st.Size() > 1 {
+				b, _ := os.ReadFile(p)
+				vTryWrite(filepath.Join(dst, filepath.Base(p)), b[:1+tp.Draw("c20s.prefix", len(b)-1)])
+			}
+		}
+		rc.fault("destination-holds-a-prefix")
+	}
 	o := cfg.opts()
 	o.srcPaths, o.dstDir = spec.paths, dst
 	o.cols = int32([]int{120, 100, 80, 200}[tp.Draw("c20s.cols", 4)])
-	o.profile = transportProfile{segPm: 200, coalPm: 100, latPm: 300, latMax: 30 * time.Millisecond, bytesPerMs: []int{0, 40, 10}[tp.Draw("c20s.bw", 3)]}
+	if cfg.relays > 0 {
+		inner := int(o.cols)
+		if cfg.srvTmux != "" {
+			o.srvPaneCols = []int{77, 40, 50, 25}[tp.Draw("c20s.srvpane", 4)]
+			inner = o.srvPaneCols
+		}
+		// from the server outwards: each pane at least as wide as what it shows, at most the terminal
+		o.relayPaneCols = make([]int, cfg.relays)
+		for i := cfg.relays - 1; i >= 0; i-- {
+			pw := inner + tp.Draw("c20s.relaypane", 40)
+			if pw > int(o.cols) {
+				pw = int(o.cols)
+			}
+			o.relayPaneCols[i] = pw
+			if cfg.relayTmux[i] != "" {
+				inner = pw
+			}
+		}
+	}
+	o.profile = transportProfile{segPm: 200, coalPm: 100, latPm: 300, latMax: 30 * time.Millisecond, bytesPerMs: []int{0, 40, 10, 40, 10}[tp.Draw("c20s.bw", 5)]}
+	o.profile.serial = tp.Bool("c20s.serial", 500) // a line of that capacity: a file then takes long enough for many redraws
+	if resume {
+		o.profile.serial = true
+		o.profile.bytesPerMs = []int{40, 100, 300}[tp.Draw("c20s.resumebw", 3)]
+	}
 	o.simCap = 30 * time.Minute
 	rc.res.ClassKey = fmt.Sprintf("system %s cols%d", cfg.key(), o.cols)
 	rc.res.Scenario["config"] = cfg.key()
@@ -248,8 +307,12 @@ func vC20System(rc *runCtx) {
 	armed := vArmAfterCfg(x)
 	cols := o.cols
 	resizedAt := -1
-	// (a terminal narrower than the tmux pane it shows cannot exist: the resize is for servers outside tmux)
-	if cfg.srvTmux == "" && tp.Bool("c20s.resize", 700) {
+	// (a terminal narrower than the tmux pane it shows cannot exist: the resize is for paths without any tmux)
+	anyRelayTmux := false
+	for _, m := range cfg.relayTmux {
+		anyRelayTmux = anyRelayTmux || m != ""
+	}
+	if cfg.srvTmux == "" && !anyRelayTmux && tp.Bool("c20s.resize", 700) {
 		newCols := int32(20 + tp.Draw("c20s.newcols", 60))
 		vOnChunk(rc, x, armed, 250, func() {
 			rc.fault("terminal-resized-during-transfer")
